@@ -730,7 +730,7 @@ def run(ctx):
                 params["source"] = t.pick(["editor", "batch"], "sourcev")
         opk = t.draw(6, "op")  # 0-2 load, 3 undeclared, 4-5 corrupt cycle
         if prop == "C17":
-            opk = min(opk, 2) if not t.chance(1, 8, "c17-other-op") else opk
+            opk = min(opk, 2) if not t.chance(1, 3, "c17-other-op") else opk
         elif prop == "C27":
             opk = 3 if opk >= 3 else opk
         elif prop in ("C18", "C28"):
@@ -1088,8 +1088,11 @@ def op_corrupt_cycle(ctx, prop, sysm, w, F, params, cache, famtag, global_repo, 
                 if extra or lost:
                     ctx.violate("C18", "repo-clean-after-failure", fclass,
                                 f"after the failed load the global repository has extra {extra}, lost {lost}")
+                    # (C18 / C28 judge the repaired reload on its own; under C17 the left-overs stay where they
+                    # are: what they do to the next loads - a file parsed again next to its cached model, references
+                    # into models of the failed attempt - is C17's business)
                     for k, i in now:
-                        if i not in before_ids:
+                        if i not in before_ids and prop != "C17":
                             del am.filename_to_model[k]
             if am2 is not None:
                 # the second language's own global repository is a surviving repository too: what it cached before the
